@@ -9,7 +9,7 @@
    peers, envelopes, faults, any interleaving of the goroutines. *)
 From Coq Require Import List ZArith Bool.
 Import ListNotations.
-From Goat Require Import Model.Proxy Proofs.ProxyProofs Proofs.ProxyOrder Proofs.ProxyWire Proofs.ProxyMeasure.
+From Goat Require Import Model.Proxy Proofs.ProxyProofs Proofs.ProxyOrder Proofs.ProxyWire Proofs.ProxyMeasure Proofs.ProxyIsWire.
 Open Scope Z_scope.
 
 (* per destination record i: what was enqueued for i is, in order, what i's connection was handed, then at
@@ -175,6 +175,52 @@ Theorem C16_wire : forall cf ls s, lrun cf init ls = Some s -> forall j i, dropp
 Proof. exact C16_wire_l. Qed.
 Print Assumptions C16_wire.
 
+(* ---------- the end-to-end clause, proxy side: the proxy IS a pair of FIFO wires (Proofs/ProxyIsWire.v) ---------- *)
+(* Abstraction, per (source record j, destination record i): [wire_sent] = accepted from j, routed to i, route applied
+   (only routing fields rewritten: C16_route); [wire_delivered] = what came out at i's connection from j;
+   [proxy_as_wire] = what is in flight (in i's write loop or buffer). Model/Sys.v joins Client.v and Server.v by FIFO
+   lists with "append at write, remove the head at transfer"; this is that wire. *)
+
+(* C16_is_wire: whenever nothing was dropped for i: sent = delivered ++ in flight, for every source j - in order, each
+   once; the envelopes in flight, all sources together, are exactly what i's write loop and buffer hold, and the
+   delivered ones exactly what its connection was handed (plus the at most one failed write) *)
+Theorem C16_is_wire : forall cf ls s, lrun cf init ls = Some s -> forall j i, dropped i (log s) = [] ->
+  wire_sent s j i = wire_delivered s j i ++ proxy_as_wire s j i /\
+  map snd (skipn (gone s i) (enqs_from i (log s))) = wr_pend s i ++ buf_of s i /\
+  map snd (firstn (gone s i) (enqs_from i (log s))) = outs i (log s) ++ wfails i (log s).
+Proof. exact C16_is_wire_l. Qed.
+Print Assumptions C16_is_wire.
+
+(* the forward simulation, step by step: ANY step of the proxy moves the wire of every pair only forwards (sent and
+   delivered are extended at the end; nothing removed, reordered, inserted) with delivered a prefix of sent before and
+   after: the step is a sequence of enqueues at the tail and dequeues of the head of the abstract wire, or a stutter *)
+Theorem C16_wire_step : forall cf ls s l s', lrun cf init ls = Some s -> lstep cf s l = Some s' ->
+  forall j i, dropped i (log s') = [] ->
+  (exists a, wire_sent s' j i = wire_sent s j i ++ a) /\
+  (exists b, wire_delivered s' j i = wire_delivered s j i ++ b) /\
+  wire_sent s j i = wire_delivered s j i ++ proxy_as_wire s j i /\
+  wire_sent s' j i = wire_delivered s' j i ++ proxy_as_wire s' j i.
+Proof. exact C16_wire_step_l. Qed.
+Print Assumptions C16_wire_step.
+
+(* the transfer lemma: EVERY invariant of the abstract FIFO wire (true of the empty wire, preserved by "enqueue at the
+   tail" and by "dequeue the head") holds of the proxy's projection onto any pair of records *)
+Theorem C16_wire_transfer : forall P, wire_invariant P ->
+  forall cf ls s, lrun cf init ls = Some s -> forall j i, dropped i (log s) = [] ->
+  P (wire_sent s j i) (wire_delivered s j i).
+Proof. exact C16_wire_transfer_l. Qed.
+Print Assumptions C16_wire_transfer.
+
+(* one instance, the wire fact behind C02 ("what the reader has got is a prefix of what the writer sent") and behind
+   the pairing of C01: through the proxy the reader's sequence is a prefix of the writer's, route applied.
+   PARTIAL as to the property's clause "C01-C04 hold through the proxied topology": that needs the product
+   Client.v x Proxy.v x Server.v and a simulation onto Model/Sys.v (whose wires are these lists) - not built; what is
+   proved is the proxy's half: it satisfies every wire invariant Sys.v's theorems can rely on. *)
+Theorem C16_prefix_through_proxy_partial : forall cf ls s, lrun cf init ls = Some s -> forall j i, dropped i (log s) = [] ->
+  exists rest, wire_sent s j i = wire_delivered s j i ++ rest.
+Proof. exact C16_prefix_through_proxy_l. Qed.
+Print Assumptions C16_prefix_through_proxy_partial.
+
 (* the return route: [reply_of e' pay] is what a goat server answers to a request that reached it as e' (source and
    destination exchanged, return route = all but the last hop of the request's route record when it has more than
    one hop: server.go; the end-to-end rig ties it). The reply is routed to the hop the request came from (popped off
@@ -251,3 +297,13 @@ Example C16_ex_delivered : exists s s', lrun cf0 init ex16_pre = Some s /\ measu
   outs 1 (log s') = [mkEnv true 1 2 [99] None 70; mkEnv true 1 2 [99] None 71] /\ fwds 1 (log s) = [].
 Proof. eexists. eexists. split. vm_compute. reflexivity. split. vm_compute. reflexivity.
   split. vm_compute. reflexivity. vm_compute. repeat split; reflexivity. Qed.
+
+(* non-vacuity of C16_is_wire: in the final state of ex16 the wire 0 -> 1 has carried two envelopes, both delivered,
+   none in flight; before the write loop of record 1 ran, both were in flight *)
+Example C16_ex_wire : exists s, lrun cf0 init ex16 = Some s /\
+  wire_sent s 0 1 = [mkEnv true 1 2 [99] None 70; mkEnv true 1 2 [99] None 71] /\
+  wire_delivered s 0 1 = wire_sent s 0 1 /\ proxy_as_wire s 0 1 = [] /\ dropped 1 (log s) = [].
+Proof. eexists. split. vm_compute. reflexivity. vm_compute. repeat split; reflexivity. Qed.
+Example C16_ex_wire_in_flight : exists s, lrun cf0 init (firstn 11 ex16) = Some s /\
+  wire_delivered s 0 1 = [] /\ proxy_as_wire s 0 1 = [mkEnv true 1 2 [99] None 70; mkEnv true 1 2 [99] None 71].
+Proof. eexists. split. vm_compute. reflexivity. vm_compute. split; reflexivity. Qed.
